@@ -16,7 +16,7 @@ use std::sync::{Arc, Mutex};
 pub const GROUPS: &[&str] = &[
     "usart_dec", "usart_enc", "usart_rt", "can_dec", "can_enc", "can_rt", "to_frames", "frag_rt", "builder", "ev_enc", "ev_rt", "ev_dec",
     "ev_cross", "ev_xenc", "rx_usart", "rx_serial", "rx_can", "rxh_usart", "rxh_serial", "rxh_can", "tx_usart", "tx_can", "tx_serial", "loop_usart",
-    "loop_serial", "loop_can", "e2e_usart", "e2e_serial", "e2e_can", "proto", "usart_dec_enum", "can_dec_enum", "builder_enum",
+    "loop_serial", "loop_can", "e2e_usart", "e2e_serial", "e2e_can", "proto", "usart_dec_enum", "can_dec_enum", "builder_enum", "psend_usart", "psend_can", "psend_serial",
 ];
 
 fn guard<T>(f: impl FnOnce() -> T) -> Option<T> {
@@ -1251,6 +1251,67 @@ fn exec_tx(t: &[&str]) -> Option<String> {
     }
 }
 
+/// `psend <link> <own> <packet> <responses> [flush answers]`: `Protocol::send_packet` over a real link sender whose
+/// device applies back-pressure; one local handler counts its calls. Observation: device log, result, handler calls.
+fn exec_psend(t: &[&str]) -> Option<String> {
+    use ross_protocol::protocol::Protocol;
+    use std::cell::Cell;
+    use std::rc::Rc;
+    let link = *t.first()?;
+    let own = u16::from_str_radix(t.get(1)?, 16).ok()?;
+    let p = text::parse_packet(t.get(2)?)?;
+    let resp = *t.get(3)?;
+    let calls = Rc::new(Cell::new(0u32));
+    macro_rules! run {
+        ($iface:expr) => {{
+            let mut pr = Protocol::new(own, $iface);
+            let c = calls.clone();
+            pr.add_packet_handler(Box::new(move |_p: &Packet, _pr: &mut Protocol<_>| c.set(c.get() + 1)), false).ok()?;
+            match guard(|| pr.send_packet(&p)) {
+                None => "panic",
+                Some(Ok(())) => "ok",
+                Some(Err(_)) => "err",
+            }
+        }};
+    }
+    match link {
+        "usart" => {
+            let sh: Shared = Arc::new(Mutex::new(ByteScript { wresp: if resp == "-" { Default::default() } else { resp.chars().collect() }, ..Default::default() }));
+            let r = run!(Usart::new(UsartDev(sh.clone())));
+            let log = text::log_bytes(&sh.lock().unwrap_or_else(|e| e.into_inner()).tx);
+            Some(format!("{} {} h{}", log, r, calls.get()))
+        }
+        "can" => {
+            let sh = Arc::new(Mutex::new(CanScript { tresp: if resp == "-" { Default::default() } else { resp.chars().collect() }, ..Default::default() }));
+            let r = run!(Can::new(bxcan::Can::new(CanDev(sh.clone()))));
+            let log = can_log(&sh.lock().unwrap_or_else(|e| e.into_inner()).tx);
+            Some(format!("{} {} h{}", log, r, calls.get()))
+        }
+        "serial" => {
+            let fl: Vec<bool> = t.get(4)?.chars().map(|c| c == 'o').collect();
+            let sh: Shared = Arc::new(Mutex::new(ByteScript { io_resp: parse_io_resps(resp)?.into_iter().collect(), flush_answers: fl.into_iter().collect(), ..Default::default() }));
+            let r = run!(Serial::new(Box::new(SerialDev(sh.clone()))));
+            let g = sh.lock().unwrap_or_else(|e| e.into_inner());
+            Some(format!("{}/f{} {} h{}", text::log_bytes(&g.tx), g.flushes, r, calls.get()))
+        }
+        _ => None,
+    }
+}
+
+fn gen_psend(r: &mut Rng, link: &str) -> String {
+    let own: u16 = *r.pick(&[1u16, 0xffff, 0x0a0a, 0]);
+    let len = *r.pick(&[0usize, 3, 8, 9, 15, 30, 100]);
+    let addr = match r.below(3) {
+        0 => own,
+        1 => 0xffff,
+        _ => r.u16(),
+    };
+    let p = text::packet_gen(r.flip(), addr, r.below(1000), len);
+    let rest = gen_tx(r, link);
+    let rest = rest.splitn(2, ' ').nth(1).unwrap_or("-").to_string();
+    format!("{:04x} {} {}", own, p, rest)
+}
+
 /* ---------------------------------------------------------------- loop-back and end to end ---- */
 
 /// insert "no data yet" items in front of the items marked as allowed (at most 8 in a row, each with
@@ -1690,6 +1751,9 @@ impl Gen {
             "tx_usart" => format!("tx usart {}", gen_tx(r, "usart")),
             "tx_can" => format!("tx can {}", gen_tx(r, "can")),
             "tx_serial" => format!("tx serial {}", gen_tx(r, "serial")),
+            "psend_usart" => format!("psend usart {}", gen_psend(r, "usart")),
+            "psend_can" => format!("psend can {}", gen_psend(r, "can")),
+            "psend_serial" => format!("psend serial {}", gen_psend(r, "serial")),
             "loop_usart" => format!("loop usart {} {}", gen_packet_list(r, i), r.below(100000)),
             "loop_serial" => format!("loop serial {} {} {}", gen_packet_list(r, i), r.below(100000), 1 + r.below(5)),
             "loop_can" => format!("loop can {} {}", gen_packet_list(r, i), r.below(100000)),
@@ -1728,6 +1792,7 @@ pub fn exec(input: &str) -> Option<String> {
         "rxh" => exec_rx(rest, true),
         "tx" => exec_tx(rest),
         "loop" => exec_loop(rest),
+        "psend" => exec_psend(rest),
         "e2e" => exec_e2e(rest),
         "proto" => crate::proto::exec(rest),
         _ => None,
